@@ -164,6 +164,45 @@ def word_level(ctx, stats, n):
                           {"query": q, "got": got, "want": want, "key": "%s %d %d" % (op, a, b)})
 
 
+def literal_level(ctx, stats):
+    """Integer literals at and beyond the range boundaries, every prefix:
+    in range -> exactly that value in the prefix's domain; out of range -> the
+    query is rejected (never a wrapped value)."""
+    mags = set()
+    for k in (1, 8, 31, 32, 33, 62, 63, 64, 65):
+        for d in (-2, -1, 0, 1, 2):
+            if (1 << k) + d >= 0:
+                mags.add((1 << k) + d)
+    mags |= {0, 1, 7, 8, 9, 10, 255, 10 ** 19, 10 ** 20, (1 << 64) * 3 + 5, (1 << 63) * 3}
+    cases = []
+    for m in sorted(mags):
+        for neg in (False, True):
+            for form, dom in (("%d", "dec"), ("0x%x", "hex"), ("0X%X", "hex"), ("0o%o", "oct"), ("0%o", "oct"), ("0b{0:b}", "bin"), ("0B{0:b}", "bin")):
+                if form == "0%o" and m == 0:
+                    continue   # "00" is octal zero, "0" decimal zero: covered below
+                text = ("-" if neg else "") + (form.format(m) if "{" in form else form % m)
+                cases.append((text, -m if neg else m, dom))
+    cases += [("0", 0, "dec"), ("00", 0, "oct"), ("-0", 0, "dec"), ("0x0", 0, "hex")]
+    ress = zw.run_cases([zw.enc(t) for t, _, _ in cases])
+    for (text, z, dom), r in zip(cases, ress):
+        stats["evaluations"] += 1
+        stats["literal_cases"] = stats.get("literal_cases", 0) + 1
+        inr = -H <= z < W
+        if r.crash or r.contract:
+            ctx.violation("literal `%s`: driver reports %s" % (text, r.d), {"query": text, "key": "literal " + text})
+        elif inr:
+            ok = (r.compile_error is None and len(r.results) == 1 and len(r.results[0]) == 1
+                  and r.results[0][0]["t"] == "c" and int(r.results[0][0]["v"]) == z and r.results[0][0]["d"] == dom)
+            if not ok:
+                ctx.violation("literal `%s` should denote %d in domain %s, got %s" % (text, z, dom, json.dumps(r.d)[:200]),
+                              {"query": text, "want": [z, dom], "key": "literal " + text})
+        else:
+            if r.compile_error is None:
+                got = r.results[0][0]["v"] if r.results and r.results[0] else "nothing"
+                ctx.violation("out-of-range literal `%s` (= %d) was accepted and yields %s" % (text, z, got),
+                              {"query": text, "want": "rejected", "got": got, "key": "literal " + text})
+
+
 def run_check(ctx):
     oblig = common.prepare(ctx)
     if oblig is None:
@@ -184,6 +223,7 @@ def run_check(ctx):
     compare_batch(ctx, mix, "mix", stats)
     if os.path.exists(common.impl_bin("zwdrv")):
         word_level(ctx, stats, 3000 if ctx.tier == "quick" else 30000)
+        literal_level(ctx, stats)
 
     found_input = bool(ctx.violations)
     common.report_broken_obligations(ctx, oblig, found_input)
@@ -206,6 +246,7 @@ def run_check(ctx):
         "operand_magnitude_histogram": hist,
         "lattice_operands": len(lat), "random_operands": len(rnd_all),
         "word_level_queries": stats["word_cases"],
+        "literal_queries": stats.get("literal_cases", 0),
         "disagreements": stats["disagreements"],
     })
     return ctx.finish(oblig)
